@@ -340,9 +340,30 @@ def tolerant_equal(a, b, ulps=1):
     return True
 
 
+def _negzero_cut(impl, model):
+    """a failing sink cuts both outputs after the same number of raw bytes; each `-0.00` the implementation printed before
+    the cut (signed zero is not modelled) makes its canonical text up to one byte shorter than the model's, and the model
+    may even have finished within the budget.  Accept exactly that: the implementation fails writing, the model fails
+    writing or succeeds, the canonical texts agree up to the cut and differ in length by at most the number of such zeros."""
+    if impl.get('status') != 'err' or impl.get('class') != 'write':
+        return False
+    if not (model.get('status') == 'ok' or (model.get('status') == 'err' and model.get('class') == 'write')):
+        return False
+    raw = unhx(impl.get('out', ''))
+    nz = len(_NEGZERO.findall(raw)) + (1 if re.search(rb'-0(\.0*)?$', raw) else 0)
+    if not nz:
+        return False
+    a = canon_out(raw)
+    b = canon_out(unhx(model.get('out', '')))
+    k = min(len(a), len(b))
+    return 0 <= len(b) - len(a) <= nz and a[:max(0, k - 8)] == b[:max(0, k - 8)]
+
+
 def obs_equal(impl, model, exact=True, fields=('status', 'class', 'out')):
     """compare two observations of app mode"""
     if model.get('status') == 'unsupported':
+        return True
+    if _negzero_cut(impl, model):
         return True
     if impl.get('status') != model.get('status'):
         return False
